@@ -176,6 +176,33 @@ def run_case(case):
         except Exception as e:
             res.fail("C07:nested-raises:" + type(e).__name__, "%s: %r" % (tname, e))
 
+    # the node lookup reflects the IR as it is at decode time: detach the module
+    # (only the IR itself stays attached), decode, re-attach, decode again
+    ser = gtirb.Serialization()
+    buf = io.BytesIO()
+    ser.encode(buf, auxref.to_python(tree, jv, gtirb, lookup), tname)
+    data = buf.getvalue()
+    mod = ir.modules[0]
+    full = {n.uuid: n for n in [ir, mod] + list(mod.sections) + list(mod.proxies) + list(mod.symbols)
+            + list(mod.byte_intervals) + list(mod.byte_blocks)}
+    for phase in ("detached", "re-attached"):
+        if phase == "detached":
+            mod.ir = None
+            table = {ir.uuid: ir}
+        else:
+            mod.ir = ir
+            table = full
+        want_p = auxref.expected_python(tree, jv, gtirb, table.get)
+        try:
+            got_p = ser.decode(data, tname, ir.get_by_uuid)
+            msg = auxref.same(tree, want_p, got_p, gtirb)
+        except Exception as e:
+            msg = "raised %r" % (e,)
+        if msg:
+            res.fail("C07:lookup-not-current-after-ir-change", "%s, module %s: %s" % (tname, phase, msg))
+            break
+    if mod.ir is not ir:
+        mod.ir = ir
     # AuxData on an IR, through save / load
     pv = auxref.to_python(tree, jv, gtirb, lookup)
     ir.aux_data["t"] = gtirb.AuxData(pv, tname)
